@@ -155,8 +155,7 @@ def segments_stream(ck, recs):
         if bare:
             rec = seen[s]
             meta = rec["program"].meta
-            fid = ("F44-grouped-aggregate-keeps-sort" if meta.get("agg_in_group_not_last") else
-                   "F45-nested-group-partition" if meta.get("nested_group") else None)
+            fid = "F45-nested-group-partition" if meta.get("nested_group") else None      # F44 is FIXED (f809321)
             ck.disagreement("an aggregating SELECT projects a column that is neither a group key nor an aggregate: %s" % s.replace("\n", " | ")[:200],
                             {"prql": s, "target": tgt, "sql": rec.get("sql"), "bare_cids": bare}, lambda c, f=fid: f)
         for sg in segs:
